@@ -68,6 +68,9 @@ var c10Labels = []string{"a", "b", "c", "com", "net", "example", "x-1"}
 
 func c10GenName(t *rapid.T, min int) []string {
 	n := rapid.IntRange(min, 3).Draw(t, "nLabels")
+	if min > 0 && rapid.IntRange(0, 11).Draw(t, "rootName") == 0 {
+		n = 0 // the root name: as an entry ".", as a query name the empty name
+	}
 	out := make([]string, n)
 	for i := range out {
 		out[i] = rapid.SampledFrom(c10Labels).Draw(t, "label")
